@@ -17,6 +17,7 @@ MCClasses == <<
   [id |-> 1, ownNs |-> "urn:a", target |-> "{urn:a}Base",    base |-> 0, module |-> 1, broken |-> FALSE],
   [id |-> 2, ownNs |-> "urn:a", target |-> "{urn:a}Derived", base |-> 1, module |-> 1, broken |-> FALSE],
   [id |-> 3, ownNs |-> "urn:b", target |-> "{urn:b}Other",   base |-> 0, module |-> 1, broken |-> FALSE] >>
+MCVars == <<>>
 MCQNs == {"{urn:a}Base", "{urn:a}Derived", "{urn:b}Other", "{urn:x}Unknown"}
 
 VARIABLES tid, i, s, th
